@@ -65,8 +65,15 @@ def run_shard_subprocess(mod, shard, idx, tmpdir):
         except ValueError:
             res = None
     with open(log, "rb") as lf:
-        tail = lf.read()[-6000:].decode("utf-8", "replace")
-    return dict(idx=idx, shard=shard, rc=rc, res=res, log=tail, wall=dt)
+        tail = lf.read()[-12000:].decode("utf-8", "replace")
+    cur = None
+    if os.path.exists(out + ".cur"):
+        try:
+            with open(out + ".cur") as f:
+                cur = json.load(f)
+        except ValueError:
+            cur = None
+    return dict(idx=idx, shard=shard, rc=rc, res=res, log=tail, wall=dt, cur=cur)
 
 
 def main(argv=None):
